@@ -589,7 +589,7 @@ class Sim:
         return self._line_tracer
 
     # ------------------------------------------------------------------- run
-    def run(self, mainfn, wall=100.0):
+    def run(self, mainfn, wall=300.0):
         global CURRENT
         if CURRENT is not None and not CURRENT.finished:
             raise RuntimeError("nested simulation")
